@@ -253,7 +253,14 @@ def oracle_C10(result):
     for s in result["steps"]:
         if s["op"]["op"] == "Access" and s["out"]["k"] == "Chan":
             chan_pair.setdefault(s["out"]["c"], (s["op"]["i"], s["op"]["a"]))
-    return [b for b in delivery_oracle(result, chan_pair, "C10")]
+    bad = [b for b in delivery_oracle(result, chan_pair, "C10")]
+    for i, s in enumerate(result["steps"]):
+        if s["op"]["op"] == "Drop" and s["out"].get("stale"):
+            # events dispatched through it would carry the dead instance (None) as their source and reach the dead
+            # instance's subscribers
+            bad.append(("C10:stale-channel", f"step {i}: a new instance was handed the bound signal of the collected "
+                        f"owner {s['op']['i']}", i))
+    return bad
 
 
 def nontrivial(result) -> bool:
